@@ -6,17 +6,18 @@ from harness.core import numeval, pool, tb
 from harness.gen import systems
 from harness.props import _shared
 
-PROOF_MODULE = ["OdeVerif.Proofs.C01", "OdeVerif.Proofs.ReachSpec", "OdeVerif.Proofs.RefinePropagator", "OdeVerif.Proofs.RefineScatter", "OdeVerif.Proofs.RefineSubSystem"]
-GENERATED = ["PyPropagator", "PyScatter", "PySubSystem"]
+PROOF_MODULE = ["OdeVerif.Proofs.C01", "OdeVerif.Proofs.ReachSpec", "OdeVerif.Proofs.RefinePropagator", "OdeVerif.Proofs.RefineScatter", "OdeVerif.Proofs.RefineSubSystem", "OdeVerif.Proofs.RefineComponents", "OdeVerif.Proofs.RefineShapesPass"]
+GENERATED = ["PyPropagator", "PyScatter", "PySubSystem", "PyComponents", "PyShapesPass"]
 THEOREMS = ["OdeVerif.C01.assemble_ok_linear", "OdeVerif.C01.flow_identity", "OdeVerif.C01.flow_deriv", "OdeVerif.C01.affine_flow_unique",
             "OdeVerif.C01.flow_semigroup", "OdeVerif.C01.analytic_solver_exact", "OdeVerif.C01.blocks_sound", "OdeVerif.C01.sum_mirror_unsound",
             "OdeVerif.ReachSpec.prop_reach_iff", "OdeVerif.ReachSpec.label_ok", "OdeVerif.ReachSpec.label_eq_iff", "OdeVerif.MatrixFlow.P_zero", "OdeVerif.MatrixFlow.P_add", "OdeVerif.MatrixFlow.flow_unique", "OdeVerif.MatrixFlow.P_col_zero",
             "OdeVerif.Refine.propagatorSolver_error_iff", "OdeVerif.Refine.propagatorSolver_ok", "OdeVerif.Refine.propagatorSolver_ok_of_model",
             "OdeVerif.Refine.scatterBlocks_inside", "OdeVerif.Refine.scatterBlocks_outside", "OdeVerif.Refine.scatterBlocks_eq_scatter",
-            "OdeVerif.Refine.subSystem_idx", "OdeVerif.Refine.subSystem_A_b", "OdeVerif.Refine.subSystem_c"]
+            "OdeVerif.Refine.subSystem_idx", "OdeVerif.Refine.subSystem_A_b", "OdeVerif.Refine.subSystem_c",
+            "OdeVerif.Refine.connectedComponentIndices_refines", "OdeVerif.Refine.mirror_spec", "OdeVerif.Refine.mem_groupByLabel", "OdeVerif.Refine.groupByLabel_same", "OdeVerif.Refine.fromJsonToShapes_keys", "OdeVerif.Refine.fromJsonToShapes_time_not_param"]
 LEVEL = "proof"
 LINEAR_SHAPES = ["isolated", "chain", "fan_in", "fan_out", "cycle", "antisym", "nonadjacent", "offset_single", "offset_in_group", "depends_on_offset",
-                 "higher_order", "higher_order_offset", "analytic_dep_numeric", "dense3", "const_drift", "offset_single", "chain_from_offset", "tiny_literals"]
+                 "higher_order", "higher_order_offset", "analytic_dep_numeric", "dense3", "const_drift", "offset_single", "chain_from_offset", "tiny_literals", "time_dependent"]
 
 
 def gen(ctx, n):
@@ -27,8 +28,10 @@ def gen(ctx, n):
             out.append(dict(c["case"], corpus=c["_file"]))
     i = 0
     while len(out) < n:
-        shape = LINEAR_SHAPES[i % len(LINEAR_SHAPES)]
+        shape = "time_dependent" if i % 8 == 5 else LINEAR_SHAPES[i % len(LINEAR_SHAPES)]
         g = systems.gen_system(rng, shape=shape, with_params=rng.choice(["none", "all", "all"]))
+        if shape == "time_dependent" and "options" not in g["indict"] and rng.random() < 0.5:
+            systems.rename_time(g["indict"], rng.choice(systems.TIME_NAMES))       # a non-autonomous equation must never get a step-size-only update
         k = len(g["indict"]["dynamics"])
         if k > 1 and rng.random() < 0.5:
             perm = list(range(k))
